@@ -505,6 +505,17 @@ func (t *tracer) onExit(tid int, regs *syscall.PtraceRegs) {
 		t.res.Restarts++
 		return
 	}
+	// copy_file_range / sendfile refused for this pair of files (other file system, unsupported): the Go runtime
+	// falls back to the next mechanism; the refused attempt moved no data and is not an event
+	if (p.nr == sysCopyFileRange || p.nr == sysSendfile) && ret < 0 {
+		switch syscall.Errno(-ret) {
+		case syscall.EXDEV, syscall.EINVAL, syscall.ENOSYS, syscall.EOPNOTSUPP, syscall.EPERM, syscall.EIO:
+			if p.rel && p.kill && t.active && t.nKill > 0 {
+				t.nKill--
+			}
+			return
+		}
+	}
 	res := "ok"
 	if ret < 0 && ret > -4096 {
 		e := syscall.Errno(-ret)
